@@ -16,14 +16,25 @@ ExpRange == IF Tier = "quick"
          THEN (0..300) \cup {137 * k : k \in 0..400} \cup {55000 + 25 * k : k \in 0..100}
               \cup {e \in SpecialExponents : e <= 57500}
          ELSE 0..57500
+\* products q0**a * q0**b: all pairs with a + b <= 600 (quick: the sums around the places where the byte length of
+\* the key's code point changes, thinned)
+Sums == IF Tier = "quick" THEN {0, 1, 9, 59, 68, 69, 70, 127, 128, 129, 196, 197, 198, 255, 256, 257, 300, 511, 512, 600} ELSE 0..600
+PairA(s) == IF Tier = "quick" THEN {a \in 0..s : a % 7 = 0 \/ a \in {1, s - 1, s, s \div 2}} ELSE 0..s
 Init == vec = [kind |-> "none"]
 Next == \/ vec.kind = "none" /\ \E b \in 0..57 : vec' = [kind |-> "block", b |-> b]
         \/ vec.kind = "block" /\ \E e \in {x \in ExpRange : x \div 1000 = vec.b} : vec' = [kind |-> "exp", e |-> e]
+        \/ vec.kind = "none" /\ \E t \in Sums : vec' = [kind |-> "sum", s |-> t]
+        \/ vec.kind = "sum" /\ \E a \in PairA(vec.s) : vec' = [kind |-> "pair", a |-> a, b |-> vec.s - a]
 Spec == Init /\ [][Next]_vec
 
 CodecInverse == vec.kind = "exp" => DecodeCp(EncodeExp(vec.e)) = vec.e
 \* the guaranteed range (below 55 000) stays clear of code points that cannot be stored
 GuaranteedRangeStorable == (vec.kind = "exp" /\ vec.e < 55000) => ~BadCodePoint(EncodeExp(vec.e))
 \* injective: a different exponent in the range never gets the same code point
+\* the key of a product is the key of the sum of the exponents: one code point, decodable, distinct from its neighbours
+ProductKey == vec.kind = "pair" =>
+   /\ DecodeCp(EncodeExp(vec.a + vec.b)) = vec.a + vec.b
+   /\ ~BadCodePoint(EncodeExp(vec.a + vec.b))
+   /\ EncodeExp(vec.a + vec.b) # EncodeExp(vec.a) \/ vec.b = 0
 Injective == vec.kind = "exp" => \A d \in {vec.e - 1, vec.e + 1, vec.e + 59, vec.e - 59} : d >= 0 => EncodeExp(d) # EncodeExp(vec.e)
 =============================================================================
